@@ -8,12 +8,60 @@ def lifecycle_jobs(rnd, prof, tier):
     return system_common.make_jobs(rnd, n, "crash", ext_crash_p=0.04)
 
 
+E2E_CONFTEST = '''
+import os
+def pytest_report_from_serializable(config, data):
+    # controller side only: the call report of one test cannot be rebuilt
+    if not os.environ.get("PYTEST_XDIST_WORKER") and data.get("nodeid", "").endswith("test_weird") and data.get("when") == "call":
+        raise ValueError("cannot rebuild this report")
+'''
+
+
+def e2e_undecodable(out, corr, rnd):
+    """glue no model contains: a REAL run in which the controller cannot rebuild one report (the receiver thread's
+    exception path, real execnet, real workers): no internal error, the worker is written off and replaced, every other
+    test passes, the lost one is reported once as crashed"""
+    import re
+    import shutil
+    import e2e
+    nruns = int((2 if out.tier == "quick" else 12) * out.boost)
+    for k in range(nruns):
+        proj = e2e.new_project()
+        try:
+            nt = rnd.randint(4, 9)
+            weird = rnd.randrange(nt)
+            body = ["import time", ""]
+            for i in range(nt):
+                body += ["def test_%s():" % ("weird" if i == weird else "t%d" % i), "    time.sleep(%s)" % rnd.choice(["0", "0.02", "0.05"]), ""]
+            open(proj + "/test_u.py", "w").write("\n".join(body))
+            open(proj + "/conftest.py", "w").write(E2E_CONFTEST)
+            args = ["-q", "-n%d" % rnd.choice([1, 2, 3]), "--dist", rnd.choice(["load", "worksteal", "loadscope", "loadfile", "each"] if k else ["load"])]
+            rc, o, _rec = e2e.run_pytest(proj, args)
+            each = "each" in args
+            nw = int(args[1][2:])
+            sig = {"kind": "e2e-undecodable-report"}
+            replay = {"args": args, "ntests": nt, "weird": weird}
+            t = e2e.tallies(o)
+            if rc == "timeout":
+                out.report(dict(sig, what="hang"), {"tail": o[-600:]}, replay); continue
+            if re.search(r"INTERNALERROR> \w*(KeyError|AssertionError|AttributeError)", o) or rc == 3:
+                out.report(dict(sig, what="internal-error"), {"rc": rc, "tail": o[-900:]}, replay); continue
+            want_pass = (nt - 1) * (nw if each else 1)
+            if t.get("passed", 0) != want_pass or t.get("failed", 0) != (nw if each else 1):
+                out.report(dict(sig, what="tallies"), {"tallies": t, "expected_passed": want_pass, "tail": o[-600:]}, replay)
+            out.coverage["samples"].append({"kind": "e2e-undecodable-report", "args": args, "tallies": t, "exit": rc})
+        finally:
+            shutil.rmtree(proj, ignore_errors=True)
+    out.coverage["e2e_runs"] = out.coverage.get("e2e_runs", 0) + nruns
+    out.coverage["evaluations"] += nruns
+
+
 def run(out: common.Outcome):
     system_common.standard_run(
         out, "C17", [("crash", 1.0)], ["internal_error", "stuck", "exactly_once", "restart_budget"],
         nontrivial=lambda r: len(r["summary"]["dead"]) >= 1,
-        rule="all modes with external kills at every lifecycle stage (booting, collecting, collected, idle, shutting down) and crashing tests; non-trivial = at least one death",
-        modes=None, extra_jobs=lifecycle_jobs)
+        rule="all modes with external kills at every lifecycle stage (booting, collecting, collected, idle, shutting down) and crashing tests, and reports the controller cannot rebuild (worker written off); plus real pytest runs with an undecodable report; non-trivial = at least one death",
+        modes=None, extra_jobs=lifecycle_jobs, extra_corr=e2e_undecodable)
 
 
 replay = system_common.replay
